@@ -108,6 +108,7 @@ def finish(ctx, only=None):
                               % (rid, counts.get(rid, 0), mn))
     for i in und:
         errors.append('undecided: %s %s %s: %s' % (i.rule, i.function, i.construct, i.detail))
+    errors.extend(getattr(ctx, 'selftest_errors', []))
 
     vdir = os.path.join(VERIF, 'evidence', 'violations')
     if NO_EVIDENCE:
